@@ -33,6 +33,7 @@ def setup_env():
     os.environ.setdefault("OPENBLAS_NUM_THREADS", "1")
     os.environ.setdefault("MPLBACKEND", "Agg")
     os.environ["NESSAI_VERIF"] = "1"
+    os.environ.setdefault("TQDM_DISABLE", "1")
     if REPO not in sys.path:
         sys.path.insert(0, REPO)
 
